@@ -16,4 +16,5 @@ def run(repo, res, tier):
     multidict.rule_p1(repo, res)
     multidict.rule_p2(repo, res)
     multidict.rule_p3(repo, res)
+    multidict.rule_p4(repo, res)
     multidict.rule_m2(repo, res)
